@@ -1,7 +1,7 @@
 (* C13 — a failed snapshot import leaves the store unchanged; a successful one adds exactly
    the snapshot.  Property theorems only; proofs live in proofs/SnapshotImportProofs.v. *)
 From Coq Require Import List NArith ZArith Bool.
-From Verif Require Import SnapshotJson SnapshotImportProofs.
+From Verif Require Import SnapshotJson SnapshotImportProofs SnapshotContentProofs.
 Import ListNotations.
 Open Scope N_scope.
 
@@ -45,6 +45,98 @@ Example C13_nonvacuous :
                 /\ free_n s' = [2].
 Proof. split; [vm_compute; reflexivity|]. eexists. split; vm_compute; reflexivity. Qed.
 
+(* ---- the content of a successful import ---- *)
+
+(* For every store (sound allocator, distinct node ids, column maps with unique keys), every
+   header, every line stream (property maps of node records with unique keys), every set of
+   dedup keys: a successful import is a sequence of actions, exactly one per node record or
+   edge record and in their order (acts): a node record is either merged into one existing
+   node (AMerge: a node that exists at that point, chosen by the dedup index, and changed
+   exactly as merge_spec says - same id, labels united, per property key a value the node's
+   column tier holds wins, otherwise the record's value is taken, a null in the record only
+   marks an absent key; every other node is untouched) or created once (ACreate: a node id
+   not in use, the record's label set and property values, create_spec); an edge record
+   becomes one relationship between the current images of its endpoint ids with the record's
+   type and properties (ALink).  The counts returned are the numbers of creations and merges. *)
+Theorem C13_success_content : forall narrow norm numstr s h ls ks s' c m,
+  wf_pre s -> wf_lines ls ->
+  import narrow norm numstr s h ls ks = Imported s' c m ->
+  exists acts im,
+    map act_rec acts = line_recs ls
+    /\ astar narrow norm numstr ks (nodes s, edges s, []) acts (nodes s', edges s', im)
+    /\ c = nlen (created_ids acts) /\ m = N.of_nat (count_merges acts).
+Proof. exact success_actions. Qed.
+
+(* what any such sequence of actions means: *)
+
+(* relationships: the previous ones, unchanged and in place, followed by exactly one per edge
+   record; node ids: the previous ones followed by the created ones *)
+Theorem C13_content_relationships : forall narrow norm numstr ks ns es im acts ns' es' im',
+  astar narrow norm numstr ks (ns, es, im) acts (ns', es', im') ->
+  es' = es ++ links_of narrow acts /\ im' = images acts ++ im
+  /\ map n_id ns' = map n_id ns ++ created_ids acts.
+Proof. exact astar_edges_images. Qed.
+
+(* each new relationship joins the images of its record's endpoint ids: the node the latest
+   earlier node record with that snapshot id was merged into or created as *)
+Theorem C13_content_link_endpoints : forall narrow norm numstr ks ns es pre r a b post c',
+  astar narrow norm numstr ks (ns, es, []) (pre ++ ALink r a b :: post) c' ->
+  rget (er_src r) (images pre) = Some a /\ rget (er_tgt r) (images pre) = Some b.
+Proof. exact astar_link_images. Qed.
+
+(* every pre-existing node is still there, changed exactly by the records merged into it, in
+   order (merge_chain of merge_spec); a node no record was merged into is there unchanged *)
+Theorem C13_content_existing_nodes : forall narrow norm numstr ks ns es im acts ns' es' im',
+  astar narrow norm numstr ks (ns, es, im) acts (ns', es', im') ->
+  forall n, In n ns ->
+  exists n', In n' ns' /\ merge_chain narrow (merged_into (n_id n) acts) n n'.
+Proof. exact astar_node_fate. Qed.
+
+(* every created node carries its record's labels and values, then whatever later records of
+   the same stream were merged into it *)
+Theorem C13_content_created_nodes : forall narrow norm numstr ks ns es im pre r id post ns' es' im',
+  astar narrow norm numstr ks (ns, es, im) (pre ++ ACreate r id :: post) (ns', es', im') ->
+  exists n0 n', create_spec narrow r id n0 /\ merge_chain narrow (merged_into id post) n0 n' /\ In n' ns'.
+Proof. exact astar_created_fate. Qed.
+
+(* node ids stay pairwise distinct: created ids are new and differ from each other *)
+Theorem C13_content_ids_distinct : forall narrow norm numstr ks ns es im acts ns' es' im',
+  astar narrow norm numstr ks (ns, es, im) acts (ns', es', im') ->
+  NoDup (map n_id ns) -> NoDup (map n_id ns').
+Proof. exact astar_nodup. Qed.
+
+(* the merge rule in purely observable terms, for a node whose row and column tiers agree
+   (every node written through set_node_property or by an import): per key of the record, a
+   non-null value the node has wins; otherwise the record's value is taken; a null in the
+   record replaces nothing and only marks an absent key *)
+Theorem C13_merge_rule_observable : forall narrow r n n',
+  col_ok n -> tiers_agree n -> merge_spec narrow r n n' ->
+  forall k, aget k (merged n') =
+    match aget k (nr_props r) with
+    | None => aget k (merged n)
+    | Some j =>
+        match aget k (merged n) with
+        | Some o => if is_null o then (if is_null (j2p narrow j) then Some o else Some (j2p narrow j)) else Some o
+        | None => if is_null (j2p narrow j) then Some PNull else Some (j2p narrow j)
+        end
+    end.
+Proof. exact merge_spec_observable. Qed.
+
+(* non-vacuity of C13_success_content: a store with (:P {name:"x"}), a stream with a record
+   that merges into it on name, a record that is created, and an edge between them *)
+Example C13_content_nonvacuous :
+  wf_pre c13_start /\ wf_lines nv13_lines
+  /\ exists s', import no_narrow (fun s => s) (fun _ => []) c13_start (HOk true [[80]; [83]; [81]]) nv13_lines c13_keys
+                = Imported s' 1 1.
+Proof. exact nv13_content. Qed.
+
 Print Assumptions C13_atomic.
 Print Assumptions C13_refuted.
 Print Assumptions C13_success_exact.
+Print Assumptions C13_success_content.
+Print Assumptions C13_content_relationships.
+Print Assumptions C13_content_link_endpoints.
+Print Assumptions C13_content_existing_nodes.
+Print Assumptions C13_content_created_nodes.
+Print Assumptions C13_content_ids_distinct.
+Print Assumptions C13_merge_rule_observable.
